@@ -391,6 +391,19 @@ class Cx:
         self.pc.append(c if d else z3.Not(c))
         return d
 
+    def decide_or_fail(self, cond, exc, msg=""):
+        """`cond` must hold or `exc` is raised. In element mode (a generic element of a comprehension / sort key)
+        the failure condition is collected instead of forking."""
+        el = getattr(self, "elem", None)
+        if el is not None:
+            c = z3.simplify(as_bool(self, cond))
+            if z3.is_true(c):
+                return
+            el.fails.append((exc, z3.Not(c)))
+            return
+        if not self.decide(cond):
+            self.py_raise(exc, msg)
+
     def choose(self, n: int) -> int:
         """Structural n-way fork with no path-condition literal."""
         if self.dpos < len(self.decisions):
@@ -407,6 +420,10 @@ class Cx:
         if isinstance(cond, bool):
             if not cond:
                 raise Infeasible()
+            return
+        el = getattr(self, "elem", None)
+        if el is not None:
+            el.axioms.append(as_bool(self, cond))
             return
         if getattr(self, "pure_depth", 0):
             raise Unsupported("assumption inside a pure (quantified) context")
@@ -448,6 +465,16 @@ class Cx:
 
 # ----------------------------------------------------------------------------------------------
 # the interpreter
+
+
+class ElemCtx:
+    """Evaluation of an expression on a generic element (bound index variable): failures and facts are collected."""
+
+    def __init__(self, index):
+        self.index = index
+        self.fails = []  # (exception class, condition under which the element evaluation raises)
+        self.axioms = []  # facts about values created for this element
+        self.effects = []
 
 
 class Frame:
@@ -1245,8 +1272,6 @@ class Interp:
             recv = self.eval(cx, fr, e.func.value)
             args, kwargs = self.eval_args(cx, fr, e)
             return self.call_method(cx, fr, recv, e.func.attr, args, kwargs)
-        if isinstance(e.func, ast.Name) and e.func.id == "super":
-            raise Unsupported("super() outside attribute call")
         f = self.eval(cx, fr, e.func)
         args, kwargs = self.eval_args(cx, fr, e)
         return self.call_value(cx, fr, f, args, kwargs)
@@ -1302,12 +1327,41 @@ class Interp:
 
     def call_super(self, cx, fr, sp, name, args, kwargs):
         mi, cls = sp.modinfo, sp.cls
+        mb = self.registry.method_binding(cls, "super." + name)
+        if mb is not None:
+            return mb(cx, sp.obj, *args, **kwargs)
         for b in mi.class_bases(cls):
             r = mi.find_method(b, name)
             if r is not None:
                 q, node = r
                 return self.call_repo(cx, RepoFunc(mi, q, node, bound=sp.obj, kind="method"), args, kwargs)
         raise Unsupported(f"super().{name} not found for {cls}")
+
+    def eval_exprs_on_element(self, cx, fr, target, elem_val, exprs, index):
+        """Evaluate expressions with `target` bound to a generic element; returns (values, fails, axioms)."""
+        old = getattr(cx, "elem", None)
+        cx.elem = ElemCtx(index)
+        cx.pure_depth = getattr(cx, "pure_depth", 0) + 1
+        try:
+            if target is not None:
+                self.assign(cx, fr, target, elem_val)
+            vals = [self.eval(cx, fr, x) for x in exprs]
+            return vals, cx.elem.fails, cx.elem.axioms
+        finally:
+            cx.pure_depth -= 1
+            cx.elem = old
+
+    def eval_on_element(self, cx, func, elem_val, index):
+        """Call a closure / function value on a generic element (element mode)."""
+        old = getattr(cx, "elem", None)
+        cx.elem = ElemCtx(index)
+        cx.pure_depth = getattr(cx, "pure_depth", 0) + 1
+        try:
+            v = self.call_value(cx, None, func, [elem_val], {})
+            return v, cx.elem.fails, cx.elem.axioms
+        finally:
+            cx.pure_depth -= 1
+            cx.elem = old
 
     def ex_Lambda(self, cx, fr, e):
         return Closure(e, fr.env, fr.modinfo)
@@ -1905,6 +1959,6 @@ def make_builtins(interp):
 
     B["NotImplemented"] = NOT_IMPLEMENTED
     B["True"], B["False"], B["None"] = True, False, None
-    for tname in ("str", "int", "bool", "list", "dict", "set", "tuple", "bytes", "type", "object"):
-        pass
+    for tname in ("bytes", "object", "float", "frozenset", "bytearray"):
+        B[tname] = SClass(tname)
     return B
